@@ -467,10 +467,9 @@ pub fn oracle_c16(c: &AstCase, obs: &mut Obs) -> Verdict {
                 vfail!("{name}: item {} has no highlighted text in the pretty form{}", k + 1, show(&r.src, &pretty));
             }
         }
-        let got: Vec<(u64, u64, bool)> = items.iter().map(|i| (i.first, i.last, i.ready)).collect();
-        if got != line_ranges(r, &exp) {
-            // the set of regions is C15/C17's business; without agreed regions the columns cannot be re-derived
-            obs.excluded("regions-differ-from-expectation(C15/C17)");
+        if items.len() != exp.len() || items.iter().zip(exp.iter()).any(|(i, g)| i.ready != g.ready) {
+            // which regions are listed is C15/C17's business; without agreed regions the columns cannot be re-derived
+            obs.excluded("set-of-regions-differs-from-expectation(C15/C17)");
             continue;
         }
         for (k, (g, it)) in exp.iter().zip(items.iter()).enumerate() {
